@@ -33,7 +33,7 @@ fn main() {
             std::io::stdin().read_line(&mut line).unwrap();
             let case: Value = serde_json::from_str(&line).unwrap();
             let rules: Vec<Value> = case["rules"].as_array().cloned().unwrap_or_default();
-            for style in [0u64, 1, 2, 5, 9, 3] {
+            for style in [0u64, 1, 2, 5, 9, 3, 16, 48, 49, 21] {
                 let t = gene_verif_harness::doc::rules_yaml_styled(&rules, style);
                 let mut c = gene::Compiler::new();
                 writeln!(w, "--- style {style}: {:?}\n{}", c.load_rules_from_str(&t).map_err(|e| format!("{e:?}")), t).unwrap();
